@@ -117,6 +117,11 @@ def build_bpdump(base_files):
             os.makedirs(os.path.dirname(p), exist_ok=True)
             with open(p, "wb") as f:
                 f.write(data)
+        for rel, target in sorted(load_corpus().get("symlinks", {}).items()):
+            p = os.path.join(ws, rel)
+            if not os.path.lexists(p):
+                os.makedirs(os.path.dirname(p), exist_ok=True)
+                os.symlink(target, p)
         env = dict(os.environ, CARGO_NET_OFFLINE="true", CARGO_TARGET_DIR=os.path.join(WORK, "fixture-target"))
         r = subprocess.run(["cargo", "build", "--offline", "-p", "simapp", "--bin", "bpdump"], cwd=ws, env=env,
                            capture_output=True, text=True)
